@@ -102,6 +102,11 @@ def main():
                     except Exception as e:
                         res[n] = "err:" + type(e).__name__
                 out.append(res)
+            elif k == "rules":
+                # diagnostic: the rule set behind a function's version
+                f = lookup(act[1])
+                f.version()
+                out.append(sorted(r.describe().split(" {")[0] for r in f.hash_rules()))
             elif k == "deps":
                 f = lookup(act[1])
                 g = f.dependencies()
